@@ -33,7 +33,9 @@ type Header struct {
 		Filters   []string `json:"filters"`
 		Functions []string `json:"functions"`
 	} `json:"policy"`
-	Extra map[string]json.RawMessage `json:"-"`
+	FS       []map[string]int           `json:"fs"`       // search paths of a file-system loader, in order: name -> source id
+	NoPolicy []int                      `json:"nopolicy"` // engines without a security policy
+	Extra    map[string]json.RawMessage `json:"-"`
 }
 
 func (h *Header) src(id int) string {
@@ -59,7 +61,8 @@ type OKey struct {
 		Name string `json:"name"`
 		Src  int    `json:"src"`
 	} `json:"what"`
-	C int `json:"c"`
+	C   int   `json:"c"`
+	Pol *bool `json:"pol"` // the engine has the header's security policy (default: yes)
 }
 
 type OResult struct {
@@ -69,17 +72,55 @@ type OResult struct {
 	Msg  string `json:"msg,omitempty"`
 }
 
-func newEngine(h *Header) *twig.Engine {
+// scratch directories of the file-system loaders created by newEngine (removed by cleanupScratch)
+var scratchDirs []string
+
+func cleanupScratch() {
+	for _, d := range scratchDirs {
+		os.RemoveAll(d)
+	}
+	scratchDirs = nil
+}
+
+func newEngine(h *Header, withPolicy bool) *twig.Engine {
 	e := twig.New()
 	srcs := map[string]string{}
 	for name, id := range h.Loader {
 		srcs[name] = h.src(id)
 	}
 	e.RegisterLoader(twig.NewArrayLoader(srcs))
-	if h.Policy != nil {
+	if len(h.FS) > 0 {
+		root, err := os.MkdirTemp("", "verif-c01-")
+		if err != nil {
+			panic("harness: " + err.Error())
+		}
+		scratchDirs = append(scratchDirs, root)
+		var paths []string
+		for i, files := range h.FS {
+			dir := fmt.Sprintf("%s/p%d", root, i)
+			os.Mkdir(dir, 0o755)
+			for name, id := range files {
+				os.WriteFile(dir+"/"+name, []byte(h.src(id)), 0o644)
+			}
+			paths = append(paths, dir)
+		}
+		fs := twig.NewFileSystemLoader(paths)
+		fs.SetSuffix("")
+		e.RegisterLoader(fs)
+	}
+	if h.Policy != nil && withPolicy {
 		e.EnableSandbox(makePolicy(Cfg{AllowF: h.Policy.Filters, AllowFn: h.Policy.Functions}))
 	}
 	return e
+}
+
+func (h *Header) hasPolicy(engine int) bool {
+	for _, e := range h.NoPolicy {
+		if e == engine {
+			return false
+		}
+	}
+	return true
 }
 
 func readLine(sc *bufio.Scanner) (string, bool) {
@@ -128,7 +169,8 @@ func pristine(h *Header, k *OKey) (res OResult) {
 		}
 	}()
 	twig.SetDebugWriter(io.Discard)
-	e := newEngine(h)
+	defer cleanupScratch()
+	e := newEngine(h, k.Pol == nil || *k.Pol)
 	for name, id := range k.Regs {
 		if id != 0 {
 			if err := e.RegisterString(name, h.src(id)); err != nil {
@@ -195,10 +237,11 @@ func runHistory(h *Header, c *HCase, oracle map[string]OResult) (res Result) {
 		if e, ok := engines[i]; ok {
 			return e
 		}
-		e := newEngine(h)
+		e := newEngine(h, h.hasPolicy(i))
 		engines[i] = e
 		return e
 	}
+	defer cleanupScratch()
 	var handles []*twig.Template
 	var trail []string
 	fail := func(i int, why, got, want string) {
